@@ -21,6 +21,13 @@ import SqiProofs.C20Kat
 import SqiProofs.DrbgRefine
 import SqiProofs.DrbgInc
 import SqiGen.Drbg
+import SqiProofs.AesCtMain
+import SqiProofs.Pad
+import SqiProofs.ChallengeScript
+import SqiGen.Challenge
+import SqiGen.Tables1
+import SqiGen.Tables3
+import SqiGen.Tables5
 
 namespace SqiProps.C20
 open SqiModel SqiModel.Sponge
@@ -121,6 +128,26 @@ theorem shake128_inc_eq_spec (chunks : List (List UInt8)) (reqs : List Nat) :
     h.2.2.2.2.2.2.2.2.2.2.2.2.2.2.2.1, genF_eq]
   exact SqiProofs.Sponge.incSession_eq_spec Fips202.keccakF 168 (by decide) (by decide) (by decide) 0x1F (by decide) chunks reqs
 
+/-- `pad10*1` at bit level = the byte padding: for every rate r > 0 and every message, the FIPS 202 bit string
+    M ‖ 1111 ‖ pad10*1(8r, |M| + 4) (Algorithm 9; bits packed into bytes least-significant first, Appendix B.1) is exactly
+    `msg ++ padBytes r 0x1F |msg|` — suffix byte 0x1F, zero bytes, 0x80 in byte r−1 of the last block, and the single byte
+    0x9F when the two coincide (|msg| ≡ r−1 mod r).  `Fips202.spongeWith` (hence `shake256_eq_spec`) absorbs that string. -/
+theorem pad10star1_bits_eq_bytes (r : Nat) (h0 : 0 < r) (msg : List UInt8) :
+    Fips202.bitsBytes ((msg.length / r + 1) * r) (Fips202.shakePaddedBits r msg)
+      = msg ++ Fips202.padBytes r 0x1F msg.length :=
+  SqiProofs.Pad.shake_padding_bits r h0 msg
+
+/-- the same for the SHA-3 suffix 01 (domain byte 0x06; single-byte case 0x86) -/
+theorem pad10star1_bits_eq_bytes_sha3 (r : Nat) (h0 : 0 < r) (msg : List UInt8) :
+    Fips202.bitsBytes ((msg.length / r + 1) * r)
+        (Fips202.bytesBits msg ++ [false, true] ++ Fips202.pad101 (8 * r) (8 * msg.length + 2))
+      = msg ++ Fips202.padBytes r 0x06 msg.length :=
+  SqiProofs.Pad.sha3_padding_bits r h0 msg
+
+set_option maxRecDepth 10000 in
+example : Fips202.padBytes 136 0x1F 135 = [0x9F] ∧ Fips202.padBytes 136 0x1F 134 = [0x1F, 0x80] ∧
+    (Fips202.padBytes 136 0x1F 0).length = 136 := by decide
+
 /-! ### non-vacuity: NIST example values, kernel-evaluated in SqiProofs.C20Kat (specification only) -/
 example : Fips202.shake256 [] 32 = [0x46, 0xb9, 0xdd, 0x2b, 0x0b, 0xa8, 0x8d, 0x13, 0x23, 0x3b, 0x3f, 0xeb, 0x74, 0x3e,
     0xeb, 0x24, 0x3f, 0xcd, 0x52, 0xea, 0x62, 0xb8, 0x1b, 0x82, 0xb5, 0x0c, 0x27, 0x64, 0x6e, 0xd5, 0x76, 0x2f] :=
@@ -173,6 +200,56 @@ open SqiModel.Challenge in
 theorem challenge_factors (xof : List UInt8 → Nat → List UInt8) (nwords iters : Nat) (j1 j2 msg : List UInt8) :
     hashToChallenge xof nwords iters j1 j2 msg
       = (1, leNat (iter (fun d => xof d (8 * nwords)) iters (xof (hashInput j1 j2 msg) (8 * nwords)))) := rfl
+
+/-- the call sequence of `hash_to_challenge`, re-extracted from each of the three sign.c files on every run (tie T:
+    malloc size, which curve each j-invariant comes from, the three writes into `buf` with their offsets, the SHAKE256
+    input length, the re-hash loop and its bound macro, the scalar conversion), is the sequence the model describes -/
+theorem h2c_scripts_extracted :
+    SqiGen.Challenge.dim2 = SqiModel.Challenge.expectedScript false ∧
+    SqiGen.Challenge.heuristic = SqiModel.Challenge.expectedScript true ∧
+    SqiGen.Challenge.hd = SqiModel.Challenge.expectedScript true := by decide
+
+open SqiModel.Challenge in
+/-- hence the extracted sequence of sqisigndim2 computes `hashToChallenge` with no re-hash: the SHAKE256 input is exactly
+    enc j(E_com) ‖ enc j(E_pk) ‖ message (all `length` bytes of it) for every message and every pair of w-byte encodings -/
+theorem h2c_dim2_eq_model (xof : List UInt8 → Nat → List UInt8) (w nwords ic : Nat) (jcom jpk msg : List UInt8)
+    (h1 : jcom.length = w) (h2 : jpk.length = w) :
+    SqiGen.Challenge.dim2.run xof w nwords ic jcom jpk msg = hashToChallenge xof nwords 0 jcom jpk msg := by
+  rw [h2c_scripts_extracted.1]; exact SqiProofs.Challenge.expected_run xof false w nwords ic jcom jpk msg h1 h2
+
+open SqiModel.Challenge in
+/-- the heuristic and HD variants: the same input, re-hashed `ic` = SQIsign2D_heuristic_challenge_hash_iteration times -/
+theorem h2c_heuristic_eq_model (xof : List UInt8 → Nat → List UInt8) (w nwords ic : Nat) (jcom jpk msg : List UInt8)
+    (h1 : jcom.length = w) (h2 : jpk.length = w) :
+    SqiGen.Challenge.heuristic.run xof w nwords ic jcom jpk msg = hashToChallenge xof nwords ic jcom jpk msg ∧
+    SqiGen.Challenge.hd.run xof w nwords ic jcom jpk msg = hashToChallenge xof nwords ic jcom jpk msg := by
+  rw [h2c_scripts_extracted.2.1, h2c_scripts_extracted.2.2]
+  exact ⟨SqiProofs.Challenge.expected_run xof true w nwords ic jcom jpk msg h1 h2,
+    SqiProofs.Challenge.expected_run xof true w nwords ic jcom jpk msg h1 h2⟩
+
+open SqiModel.Challenge in
+/-- the reduction step: scalars[0] = 1 and scalars[1] is the little-endian integer of the NWORDS_FIELD digits, so
+    0 ≤ challenge < 2^(64·NWORDS_FIELD) whenever the XOF returns the requested 8·NWORDS_FIELD bytes, and it depends on nothing
+    but the (iterated) hash output (`challenge_factors`) -/
+theorem challenge_range (xof : List UInt8 → Nat → List UInt8) (hx : ∀ m n, (xof m n).length = n) (nwords iters : Nat)
+    (j1 j2 msg : List UInt8) :
+    (hashToChallenge xof nwords iters j1 j2 msg).1 = 1 ∧
+    (hashToChallenge xof nwords iters j1 j2 msg).2 < 2 ^ (64 * nwords) := by
+  refine ⟨rfl, ?_⟩
+  have hl := SqiProofs.Challenge.challengeDigits_length xof hx nwords iters j1 j2 msg
+  have := SqiProofs.Challenge.leNat_lt (challengeDigits xof nwords iters j1 j2 msg)
+  rw [hl] at this
+  have e : (256 : Nat) ^ (8 * nwords) = 2 ^ (64 * nwords) := by
+    rw [show (256 : Nat) = 2 ^ 8 by rfl, ← Nat.pow_mul]; congr 1; omega
+  rw [← e]; exact this
+
+/-- the per-level constants the three variants instantiate the model with (FP2_ENCODED_BYTES, NWORDS_FIELD, iteration count) -/
+theorem h2c_level_constants :
+    SqiGen.L1.D_FP2_ENCODED_BYTES = 64 ∧ SqiGen.L1.D_NWORDS_FIELD = 4 ∧ SqiGen.L1.D_SQIsign2D_heuristic_challenge_hash_iteration = 16 ∧
+    SqiGen.L3.D_FP2_ENCODED_BYTES = 96 ∧ SqiGen.L3.D_NWORDS_FIELD = 6 ∧ SqiGen.L3.D_SQIsign2D_heuristic_challenge_hash_iteration = 256 ∧
+    SqiGen.L5.D_FP2_ENCODED_BYTES = 128 ∧ SqiGen.L5.D_NWORDS_FIELD = 8 ∧ SqiGen.L5.D_SQIsign2D_heuristic_challenge_hash_iteration = 64 ∧
+    SqiGen.L1.D_FP2_ENCODED_BYTES = 2 * (8 * SqiGen.L1.D_NWORDS_FIELD) ∧ SqiGen.L3.D_FP2_ENCODED_BYTES = 2 * (8 * SqiGen.L3.D_NWORDS_FIELD) ∧
+    SqiGen.L5.D_FP2_ENCODED_BYTES = 2 * (8 * SqiGen.L5.D_NWORDS_FIELD) := by decide
 
 example : SqiModel.Challenge.hashInput [1, 2] [3, 4] [5] ≠ SqiModel.Challenge.hashInput [1, 2] [3, 4] [5, 0] := by decide
 
@@ -247,6 +324,12 @@ theorem randombytes_init_eq_spec (E : List UInt8 → List UInt8 → List UInt8) 
     (entropy : List UInt8) : Drbg.abs (Drbg.Model.init E entropy none) = Drbg.Spec.instantiate E entropy [] :=
   SqiProofs.Drbg.init_refines E hE entropy
 
+/-- … and with a (48-byte) personalization string: seed_material = entropy ⊕ personalization -/
+theorem randombytes_init_pers_eq_spec (E : List UInt8 → List UInt8 → List UInt8) (hE : ∀ k v, (E k v).length = 16)
+    (entropy pers : List UInt8) (hp : pers.length = 48) :
+    Drbg.abs (Drbg.Model.init E entropy (some pers)) = Drbg.Spec.instantiate E entropy pers :=
+  SqiProofs.Drbg.init_refines_pers E hE entropy pers hp
+
 /-- every request history of the model is the specification's history (induction over the request list) -/
 theorem randombytes_history_eq_spec (E : List UInt8 → List UInt8 → List UInt8) (hE : ∀ k v, (E k v).length = 16)
     (st : Drbg.Model.St) (hv : st.v.length = 16) (reqs : List Nat) :
@@ -261,6 +344,48 @@ example : (Drbg.Model.init (fun _ _ => List.replicate 16 7) (List.replicate 48 1
 /-- the block cipher specification meets the hypothesis `hE` on a concrete instance and reproduces FIPS 197 C.3 -/
 example : (Aes.aes256 ((List.range 32).map (·.toUInt8)) ((List.range 16).map (fun i => (17 * i).toUInt8))).length = 16 := by
   rw [SqiProofs.C20Kat.kat_aes256]; rfl
+
+/-! ## (d′) AES: the bitsliced constant-time code of aes_c.c, translated (tie T), equals FIPS 197
+   `SqiGen.Aes.*_prog` are the register programs re-extracted from br_aes_ct64_bitslice_Sbox, shift_rows, mix_columns,
+   add_round_key, br_aes_ct64_ortho, br_aes_ct64_interleave_in/out; `SqiModel.AesCt` composes them like aes_ecb4x does.
+   `unslice q blk` reads block blk out of the bitsliced registers (q[b] bit 16r+4c+blk = bit b of byte (r,c)). -/
+
+/-- the S-box defined by GF(2^8) inversion + affine map is the table of FIPS 197 Figure 7 -/
+theorem aes_sbox_is_fips_table (n : Nat) (h : n < 256) : Aes.sbox (UInt8.ofNat n) = UInt8.ofNat (Aes.sboxTable.getD n 0) :=
+  SqiProofs.AesSpec.sbox_table n h
+
+/-- the Boyar–Peralta S-box circuit of the C code is SubBytes, on every block of every bitsliced state -/
+theorem aes_sbox_circuit_eq_spec (q : List UInt64) (hq : q.length = 8) (blk : Nat) (hb : blk < 4) :
+    AesCt.unslice (AesCt.sboxQ q) blk = Aes.subBytes (AesCt.unslice q blk) :=
+  SqiProofs.AesCt.sboxQ_eq' q hq blk hb
+
+theorem aes_shift_rows_eq_spec (q : List UInt64) (hq : q.length = 8) (blk : Nat) (hb : blk < 4) :
+    AesCt.unslice (AesCt.shiftRowsQ q) blk = Aes.shiftRows (AesCt.unslice q blk) :=
+  SqiProofs.AesCt.shiftRowsQ_eq q hq blk hb
+
+theorem aes_mix_columns_eq_spec (q : List UInt64) (hq : q.length = 8) (blk : Nat) (hb : blk < 4) :
+    AesCt.unslice (AesCt.mixColumnsQ q) blk = Aes.mixColumns (AesCt.unslice q blk) :=
+  SqiProofs.AesCt.mixColumnsQ_eq q hq blk hb
+
+theorem aes_add_round_key_eq_spec (q sk : List UInt64) (hq : q.length = 8) (hsk : sk.length = 8) (blk : Nat) (hb : blk < 4) :
+    AesCt.unslice (AesCt.addRoundKeyQ q sk) blk = Aes.xorBytes (AesCt.unslice q blk) (AesCt.unslice sk blk) :=
+  SqiProofs.AesCt.addRoundKeyQ_eq q sk hq hsk blk hb
+
+/-- entry sequence (interleave_in ×4, ortho): the four input blocks appear in the bitsliced layout -/
+theorem aes_slice_in_eq_spec (w : List UInt64) (hw : w.length = 16) (blk : Nat) (hb : blk < 4) :
+    AesCt.unslice (AesCt.sliceIn w) blk = ((w.drop (4 * blk)).take 4).flatMap AesCt.enc32le :=
+  SqiProofs.AesCt.sliceIn_eq w hw blk hb
+
+/-- `aes_ecb4x` (entry sequence, AddRoundKey, nr−1 full rounds, final round, exit sequence) = FIPS 197 Cipher on each of the
+    four blocks — for every input, every nr, and every expanded key `skExp` whose round-r words are the bitsliced round key r
+    in all four lanes.  (That br_aes_ct64_keysched + br_aes_ct64_skey_expand produce such an `skExp` is the part of AES that
+    remains correspondence-only: checked on every run for a set of keys by the op `aesct.keys`.) -/
+theorem aes_ecb4x_eq_spec (w : List UInt64) (hw : w.length = 16) (skExp : List UInt64) (wk : List (List UInt8)) (nr : Nat)
+    (hlen : 8 * (nr + 1) ≤ skExp.length)
+    (hkeys : ∀ r, r ≤ nr → ∀ blk, blk < 4 → AesCt.unslice ((skExp.drop (8 * r)).take 8) blk = Aes.roundKey wk r) :
+    AesCt.ecb4x w skExp nr =
+      (List.range 4).flatMap fun blk => Aes.cipherWith wk nr (((w.drop (4 * blk)).take 4).flatMap AesCt.enc32le) :=
+  SqiProofs.AesCt.ecb4x_eq w hw skExp wk nr hlen hkeys
 
 /-! ## (e) secure clear (model; that the store is not elided is a run-time observation) -/
 open SqiModel.Challenge in
